@@ -15,7 +15,7 @@ pub fn def() -> CheckDef {
         id: "C09",
         level: "exploration",
         cases: |t| match t {
-            Tier::Quick => 9_000,
+            Tier::Quick => 30_000,
             Tier::Thorough => 700_000,
         },
         gen,
